@@ -80,6 +80,7 @@ type chainRun struct {
 	ps       *chain.ProbeSet
 	perOp    int
 	rng      *rand.Rand
+	net      *networks.Network // network configuration of this chain (Sepolia, or mainnet: block-hash format metadata with First07Block > 0)
 }
 
 func eventsSnapshot(bc *blockchain.Blockchain) string {
@@ -182,7 +183,7 @@ func (cr *chainRun) isolate(store *memory.Database, blk *chain.Blk, subj *subjec
 					bad = true
 				}
 			}()
-			n := chain.NewNode(store.Copy(), cr.newState)
+			n := chain.NewNodeOn(cr.net, store.Copy(), cr.newState)
 			tb := chain.CloneBlk(blk)
 			t.Apply(tb)
 			if t.Rehash && rehash(tb, subj.Net, cr.newState) != nil {
@@ -202,8 +203,8 @@ func (cr *chainRun) isolate(store *memory.Database, blk *chain.Blk, subj *subjec
 
 func (cr *chainRun) run() {
 	r := cr.r
-	node := chain.NewMemNode(cr.newState)
-	control := chain.NewMemNode(cr.newState)
+	node := chain.NewNodeOn(cr.net, memory.New(), cr.newState)
+	control := chain.NewNodeOn(cr.net, memory.New(), cr.newState)
 	be := backendName(cr.newState)
 	// hash-level operators: every position in the thorough tier, three per chain and backend in
 	// the quick tier; store-level operators (linkage, roots, forged diffs): every position, always
@@ -219,7 +220,7 @@ func (cr *chainRun) run() {
 			r.Inconclusive("generator-version")
 			return
 		}
-		subj := &subject{Net: &networks.Sepolia, Ver: ver, HasSU: true, Synthetic: true}
+		subj := &subject{Net: cr.net, Ver: ver, HasSU: true, Synthetic: true}
 		if subj.Format, err = blockFormat(blk.Block, subj.Net); err != nil {
 			r.Inconclusive("generator-version")
 			return
@@ -241,7 +242,7 @@ func (cr *chainRun) run() {
 			attempted = append(attempted, t.Op)
 			if !cr.attempt(node, blk, subj, i, t, dump0, ev0) {
 				// violation recorded; continue from the state before the attempts
-				node = chain.NewNode(pre.Copy(), cr.newState)
+				node = chain.NewNodeOn(cr.net, pre.Copy(), cr.newState)
 				clean = false
 			}
 		}
@@ -268,7 +269,7 @@ func (cr *chainRun) run() {
 		if err := node.StoreBlk(chain.CloneBlk(blk)); err != nil {
 			w.Expected, w.Observed, w.Attempted = "valid block accepted", "rejected: "+errStr(err), attempted
 			// was it acceptable before any attempt was made?
-			if err0 := chain.NewNode(pre.Copy(), cr.newState).StoreBlk(chain.CloneBlk(blk)); err0 != nil {
+			if err0 := chain.NewNodeOn(cr.net, pre.Copy(), cr.newState).StoreBlk(chain.CloneBlk(blk)); err0 != nil {
 				r.Violation("valid-block-rejected:"+subj.Format+":"+be, cr.idx,
 					fmt.Sprintf("%s backend rejects valid block %d built by %s builder: %v", be, i, cr.builder, err0), w)
 				return
@@ -314,6 +315,14 @@ func chainCase(r *lib.Run, caseIdx, idx int) {
 	if idx%3 == 0 {
 		opts.Versions = []string{"0.13.2", "0.13.4"} // keeps the 0.13.2 block format represented
 	}
+	// every fourth chain lives on the mainnet configuration: its block-hash metadata says blocks below
+	// height 833 predate the 0.7 format - which a block's own protocol version overrides
+	net := &networks.Sepolia
+	if idx%4 == 1 {
+		net = &networks.Mainnet
+		r.Count("synthetic_chains_on_the_mainnet_configuration(First07Block=833)", 1)
+	}
+	opts.Net = net
 	length := 6 + rng.IntN(5)
 	perOp := 1
 	if !r.Quick() {
@@ -324,7 +333,7 @@ func chainCase(r *lib.Run, caseIdx, idx int) {
 	build := func(stream string, newState bool) (*chain.Chain, error) {
 		g := chain.NewGen(lib.Rng(stream, uint64(idx)), opts)
 		c := &chain.Chain{}
-		return c, g.Extend(c, chain.NewBuilder(newState), length)
+		return c, g.Extend(c, chain.NewBuilderOn(net, newState), length)
 	}
 	c, err := build("C02/chain/blocks", builderNew)
 	if err != nil {
@@ -348,7 +357,7 @@ func chainCase(r *lib.Run, caseIdx, idx int) {
 	r.Count("chains", 1)
 	r.Count("chain_blocks", len(c.Blocks))
 	for _, newState := range []bool{false, true} {
-		cr := &chainRun{r: r, idx: caseIdx, cidx: idx, newState: newState, builder: backendName(builderNew), c: c, foreign: foreign, ps: ps, perOp: perOp,
+		cr := &chainRun{r: r, idx: caseIdx, cidx: idx, newState: newState, builder: backendName(builderNew), c: c, foreign: foreign, ps: ps, perOp: perOp, net: net,
 			rng: lib.Rng("C02/chain/sample/"+backendName(newState), uint64(idx))}
 		cr.run()
 	}
